@@ -301,7 +301,7 @@ def exec (c : Cfg) (s : State) : Stmt → State
     let recs := s.rd.ents.map Rec.entry ++ (if s.rd.hs.isEmpty then [] else [Rec.state s.rd.hs])
     let n := if s.rd.hs.isEmpty then { s.node with mustSync := ms } else { s.node with mustSync := ms, walState := s.rd.hs, hs := s.rd.hs }
     { s with disk := s.disk.write recs, node := n }
-| .walFlush => if s.node.mustSync then { s with disk := s.disk.flush, node := { s.node with mustSync := false } } else s
+| .walFlush => if s.node.mustSync then { s with disk := s.disk.flush } else s
 | .applySnap => if s.rd.snap.isEmpty then s else { s with node := { s.node with snap := s.rd.snap, off := s.rd.snap.index, ents := [] } }
 | .walSync => if s.rd.snap.isEmpty then s else { s with disk := s.disk.flush }
 | .publishSnap =>
